@@ -98,3 +98,118 @@ pub fn replay(prop: &str, case: &Value, st: &mut Stats) -> bool {
         _ => false,
     }
 }
+
+/// Cold-start monitor (leg `cold`): the `index`-th case of the property's cold list is evaluated as the very first
+/// library call of this process (process-wide statics, lazily initialised tables and memos are in their initial
+/// state; the epoch, whose raw value 0 coincides with zero-initialised state, is always in the list).
+/// Returns the length of the list.
+pub fn cold(prop: &str, index: Option<usize>, st: &mut Stats) -> Option<usize> {
+    use crate::core::*;
+    use crate::pools::G;
+    use crate::tok::{Ty, ALL_TY, V};
+    st.stratum("cold start: first library call of a fresh process", true);
+    macro_rules! go {
+        ($list:expr, $check:expr) => {{
+            let l = $list;
+            if let Some(i) = index {
+                if let Some(c) = l.get(i) {
+                    st.eval(c, $check);
+                }
+            }
+            Some(l.len())
+        }};
+    }
+    // generic operand grid for the drivers whose cases are (kind, a, b, c, f): small non-negative operands are in
+    // every kind's domain (day numbers, microsecond counts, month counts, times of day)
+    // (`unit` = 1_000_000 where operands may be Oracle-style dates: whole seconds; also a valid day / month count)
+    fn grid<K: Copy>(all: &[K], unit: i64) -> Vec<G<K>> {
+        let mut v = vec![];
+        for &k in all {
+            for (a, b) in [(0i64, 0i64), (0, unit), (unit, 0), (unit, unit)] {
+                v.push(G { k, a, b, c: 0, f: 1.0 });
+            }
+        }
+        v
+    }
+    match prop {
+        "C01" => go!(c01::cold_list(), c01::check),
+        "C07" => go!(c07::cold_list(), c07::check),
+        "C08" => go!(grid(c08::K::ALL, 1_000_000), c08::check),
+        "C09" => go!(c09::cold_list(), c09::check),
+        "C10" => go!(c10::cold_list(false), c10::check_trunc),
+        "C11" => go!(c10::cold_list(true), c10::check_round),
+        "C12" => go!(grid(c12::K::ALL, 1), c12::check),
+        "C13" => go!(grid(&c13::K::ALL.iter().copied().filter(|k| !k.name().contains("out-of-range")).collect::<Vec<_>>(), 1), c13::check),
+        "C14" => go!(grid(c14::K::ALL, 1), c14::check),
+        "C16" => go!(grid(c16::K::ALL, 1_000_000), c16::check),
+        "C17" => go!(grid(c17::K::ALL, 1_000_000), c17::check),
+        "C15" => {
+            let mut l = vec![];
+            for v in [V::Date(1970, 1, 1), V::Time(0, 0, 0, 0), V::Ts(1970, 1, 1, 0, 0, 0, 0), V::Ora(1970, 1, 1, 0, 0, 0), V::YM(false, 0, 0), V::DT(false, 0, 0, 0, 0, 0), V::Date(1969, 12, 31), V::Ts(1969, 12, 31, 23, 59, 59, 999_999), V::Date(1, 1, 1), V::Ts(9999, 12, 31, 23, 59, 59, 999_999)] {
+                l.push(c15::S::Rt(v));
+            }
+            for ty in ALL_TY {
+                l.push(c15::S::DecBin(ty, 0));
+                l.push(c15::S::DecBin(ty, 1));
+                l.push(c15::S::DecJson(ty, "\"1970-01-01 00:00:00.000000\"".to_string()));
+            }
+            go!(l, c15::check)
+        }
+        "C19" => go!(["YYYY", "DD", " ", "YYYY-MM-DD", "Month", "x", "", "HH24:MI:SS.FF6", "A.M."].iter().map(|p| c19::C(p)).collect::<Vec<_>>(), c19::check),
+        "C05" => {
+            let exp = |ty: Ty| match ty {
+                Ty::Date => V::Date(1970, 1, 1),
+                Ty::Ts => V::Ts(1970, 1, 1, 0, 0, 0, 0),
+                _ => V::Ora(1970, 1, 1, 0, 0, 0),
+            };
+            let mut l = vec![];
+            for ty in [Ty::Date, Ty::Ts, Ty::Ora] {
+                for (pic, text) in [("YYYY-MM-DD", "1970-01-01"), ("YYYY DDD", "1970 001"), ("DY DD MON YYYY", "thu 1 jan 1970"), ("YYYYMMDD", "19700101")] {
+                    l.push(c05::P { via_serde: false, ty, pic, text, expect: Ok(exp(ty)), why: "cold-start" });
+                }
+            }
+            l.push(c05::P { via_serde: false, ty: Ty::Time, pic: "HH24:MI:SS", text: "00:00:00", expect: Ok(V::Time(0, 0, 0, 0)), why: "cold-start" });
+            l.push(c05::P { via_serde: false, ty: Ty::YM, pic: "YYYY-MM", text: "0-0", expect: Ok(V::YM(false, 0, 0)), why: "cold-start" });
+            l.push(c05::P { via_serde: false, ty: Ty::DT, pic: "DD HH24:MI:SS", text: "0 0:0:0", expect: Ok(V::DT(false, 0, 0, 0, 0, 0)), why: "cold-start" });
+            l.push(c05::P { via_serde: true, ty: Ty::Date, pic: "YYYY-MM-DD", text: "1970-01-01", expect: Ok(V::Date(1970, 1, 1)), why: "cold-start" });
+            go!(l, c05::check)
+        }
+        "C04" | "C06" => {
+            let vals = [V::Date(1970, 1, 1), V::Ts(1970, 1, 1, 0, 0, 0, 0), V::Ora(1970, 1, 1, 0, 0, 0), V::Time(0, 0, 0, 0), V::Date(1969, 12, 31), V::Ts(1969, 12, 31, 23, 59, 59, 999_999)];
+            let pics = ["YYYY-MM-DD", "DAY, DD MONTH YYYY", "YYYY DDD", "D DY W WW", "HH24:MI:SS.FF6", "HH:MI:SS AM"];
+            let n = vals.len() * pics.len();
+            if let Some(i) = index {
+                if i < n {
+                    let (v, p) = (vals[i / pics.len()], pics[i % pics.len()]);
+                    if let Some(pc) = c04::pic(st, p, None) {
+                        if prop == "C04" {
+                            st.eval(&c04::F { v, pic: &pc.text, toks: &pc.toks, f: &pc.f, via_display: i % 2 == 0, fail_cap: -1 }, c04::check);
+                        } else if i % pics.len() < 3 && v.ty() == Ty::Date {
+                            // (date pictures are lossless for Date values only)
+                            st.eval(&c06::R { v, pic: &pc.text, f: &pc.f, tag: "", clk: 0, pre: 0 }, c06::check);
+                        }
+                    }
+                }
+            }
+            Some(n)
+        }
+        "C18" => {
+            let scns = c18::scenarios(st);
+            let days = [0i32, -1, 1, 11_016];
+            let per = 1 + scns.len();
+            let n = days.len() * per;
+            if let Some(i) = index {
+                if i < n {
+                    let (day, k) = (days[i / per], i % per);
+                    if k == 0 {
+                        st.eval(&c18::K { day, tod: 0, scn: None, scn_idx: 0 }, c18::check);
+                    } else {
+                        st.eval(&c18::K { day, tod: 1, scn: Some(&scns[k - 1]), scn_idx: k - 1 }, c18::check);
+                    }
+                }
+            }
+            Some(n)
+        }
+        _ => None,
+    }
+}
